@@ -512,6 +512,12 @@ fn main() {
             un.push(Dec { n: -n.clone(), s });
         }
     }
+    // the structured library (word limits, word-crossing products, patterns at every length, carry chains,
+    // all-ones words) through the unary operations as well
+    for n in structured_ints(tier.pick(60, 200), tier.pick(24, 60), run.seed()) {
+        un.push(Dec { n: n.clone(), s: 3 });
+        un.push(Dec { n: -n, s: -2 });
+    }
     run.par("S4 unary (double half square cube abs neg)", un.len(), |i| {
         let mut t = Tally::default();
         t.states += 1;
